@@ -103,9 +103,8 @@ package goldilocks
 //@ end
 
 //@ func Element.Mul
-//@ tags purego
-//@ requires val(x) < q && val(y) < q
-//@ lemma mulmono(val(x), q-1, val(y))
+//@ requires val(y) < q
+//@ lemma mulmono(val(y), q-1, val(x))
 //@ ghost-final K = m
 //@ ensures[mont] val(z)*R == old(val(x))*old(val(y)) + K*q || val(z)*R == old(val(x))*old(val(y)) + (K-R)*q
 //@ ensures[reduced] val(z) < q
@@ -114,7 +113,6 @@ package goldilocks
 //@ end
 
 //@ func Element.Square
-//@ tags purego
 //@ requires val(x) < q
 //@ lemma mulmono(val(x), q-1, val(x))
 //@ ghost-final K = m
